@@ -1031,6 +1031,8 @@ class Config:  # pylint: disable=too-many-instance-attributes
         :param key: field key
         :param value: field default value
         """
+        if isinstance(value, Config):
+            value._key = key
         self._data[key] = value
         self._default_value_keys.add(key)
 
